@@ -12,8 +12,22 @@ SOURCE_NAMES = ("src", "nosrc")
 # names that are NOT architectures: unknown ones and near misses of table entries / of the two source names
 NEAR_MISS = ["SRC", "Src", "src ", " src", "src\n", "nosrc\n", "NOSRC", "no-src", "nosrc ", "source", "srcs", "sr", "nosr", "src.rpm",
              "x86-64", "X86_64", "x86_64 ", " x86_64", "x86_64\n", "x86", "i387", "amd65", "", " ", "noarch ", "Noarch", "aarch_64", "ppc64el",
-             u"x86_64 ", u"sʀc", "s390xx", "arm", "None"]
-IMG_VERSIONS = ["1.1", "1.0", "1.2", "1.1", "0.0", "2.0", "1.0", "1.1"]
+             u"x86_64\u00a0", u"s\u0280c", "s390xx", "arm", "None",
+             # audit A1: tab, non-ASCII blank, blank inside
+             "src\t", "\tsrc", u"src\u00a0", u"\u00a0nosrc", "s rc", "no src", "x86 64",
+             # audit A2: the formats' delimiters around / inside a name, doubled forms
+             "src/", "/src", "src:", "src,nosrc", "src;nosrc", "[src]", "'src'", "\"src\"", "src\\", "%s", "src%", "#src", "src=src", "src@", "src.", ".src",
+             "srcsrc", "src-src", "nosrcnosrc", "src,x86_64", "x86_64,i386", "x86_64/", "i386.", "noarch:", "ppc64-le",
+             # audit A5: look-alikes, fullwidth / non-ASCII digits, values that look like other types, very long
+             u"\uff53\uff52\uff43", u"x86_\uff16\uff14", u"i\u0663\u0668\u0666", "null", "0", "False", "1.0", "true", "[]", "x" * 300, "src" * 100,
+             # audit A7 / C2: proper prefixes and extensions of every literal the code compares with, and of table neighbours
+             "s", "nosrcs", "nosrc2", "src64", "osrc", "nsrc", "ppc6", "ppc64l", "ppc64lee", "i38", "i3866", "noarc", "noarchh", "aarch6", "aarch644"]
+# variant names (audit A1/A2/A4/A5): the source names AS VARIANT names, empty / blank, case pairs, non-ASCII, arch look-alikes, very long
+ODD_VARIANTS = ["src", "nosrc", "", " ", "server", "SERVER", u"S\u00e9rver", "x86_64", "Server-optional", "Server.optional", "a/b", "None", "0",
+                "V" * 300, u"\u0421\u0435\u0440\u0432\u0435\u0440", "Server "]
+# arguments that are not strings at all (audit A8, corrupting stream of the add histories)
+NON_STRING_ARCHES = [None, 0, False, [], {}, 1.5, ["src"], ["x86_64"], True, 64]
+IMG_VERSIONS = ["1.1", "1.0", "1.2", "1.1", "0.0", "2.0", "1.0", "1.1", "1.10", "1.01", "0.9"]
 
 
 def table():
@@ -59,6 +73,14 @@ def _simple_image(rng, n, arch, variant):
             "bootable": arch != "src" and rng.random() < 0.5, "subvariant": rng.choice(["", variant, "KDE"]), "unified": False, "additional_variants": []}
 
 
+def odd_variants(rng, variants):
+    """audit A1/A2/A4/A5: now and then one of the variant names is odd (a source name AS a variant, empty, blank, case twin, ...)"""
+    variants = list(variants)
+    if rng.random() < 0.3:
+        variants[rng.randrange(len(variants))] = rng.choice(ODD_VARIANTS)
+    return list(dict.fromkeys(variants))
+
+
 def doc_record(d, vp):
     """the 15 attributes the reader is documented to give an image dictionary (defaults written out)"""
     r = dict(d)
@@ -74,16 +96,21 @@ def gen_images_doc(rng, tier, n):
     """documents 1.0 / 1.1 / 1.2 (/2.0): any subset of the variants has `src` next to 1-3 binary arches, the binary arch sets
     differ between variants; sometimes a variant with only `src`, a `nosrc` / unknown key, a `src` key in a newer document"""
     t = F.tables()
-    ver = ["1.1", "1.0", "1.1", "1.2", "1.0", "1.1", "2.0", "1.2"][n % 8]
+    # versions round-robin, with the boundaries of the gate `<= (1, 1)` spelled in ways that only an integer comparison gets right
+    # (audit C2): "1.01" is (1, 1), "1.10" is (1, 10); "0.9" is old
+    ver = ["1.1", "1.0", "1.1", "1.2", "1.0", "1.1", "2.0", "1.2", "1.01", "1.10", "0.9"][n % 11]
     k = 1000 * (n % 50)
     images = {}
-    variants = rng.sample(F.VARIANTS, rng.randint(1, 3))
+    variants = odd_variants(rng, rng.sample(F.VARIANTS, rng.randint(1, 3)))
     used = set()
-    for v in variants:
+    L = len(t["arches"])
+    for vi, v in enumerate(variants):
         pool = [a for a in t["arches"] if a not in used] or t["arches"]
         my = rng.sample(pool, rng.choice([1, 2, 2, 3, 3]))
-        if rng.random() < 0.4:
-            my[0] = rng.choice(["x86_64", "i386", "ppc64le", "aarch64", "s390x", "noarch"])     # overlap between variants, never equality of the sets
+        # audit A7: EVERY table entry becomes a tree arch key in turn (round-robin over the table, last entry included)
+        my[0] = t["arches"][(3 * n + vi) % L]
+        if rng.random() < 0.3:
+            my[-1] = rng.choice(["x86_64", "i386", "ppc64le", "aarch64", "s390x", "noarch"])     # overlap between variants, never equality of the sets
         my = list(dict.fromkeys(my))
         used.add(my[-1])
         images[v] = {}
@@ -122,6 +149,22 @@ def gen_images_doc(rng, tier, n):
         a, b = srcful[0], rng.choice(variants)
         if images[a].get("src") and a != b:
             images[b].setdefault("src", []).append(copy.deepcopy(images[a]["src"][0]))
+    elif r < 0.32 and srcful and images[srcful[0]].get("src"):
+        # audit A10: the same image dictionary TWICE in one src list (two objects of equal identity and equal checksums)
+        images[srcful[0]]["src"].append(copy.deepcopy(images[srcful[0]]["src"][0]))
+    elif r < 0.35:
+        images["Empty"] = {}                                       # audit A10: a variant with no arch at all
+    elif r < 0.37:
+        images = {}                                                # ... and a document with no variant
+    elif r < 0.43:
+        # audit A4: two variants whose names differ only in case, different binary arch sets, each with its own src entry
+        v = rng.choice(variants)
+        twin = v.upper() if v.upper() != v else v.lower()
+        if twin not in images and twin != v:
+            k += 2
+            other = t["arches"][(3 * n + 7) % L]
+            images[twin] = {other: [simple_image(rng, k - 1, other, twin)], "src": [simple_image(rng, k, "src", twin)]}
+            variants = variants + [twin]
     if ver == "1.0" and rng.random() < 0.5:
         for d in images.values():
             for c in d.values():
@@ -134,11 +177,18 @@ def gen_images_doc(rng, tier, n):
                     rec.pop("unified", None); rec.pop("additional_variants", None)
             c.sort(key=lambda x: x["path"])
     malformed = None
-    if rng.random() < 0.06:
+    variants = [v for v in variants if images.get(v)]
+    if variants and n % 13 == 12:
         v = rng.choice(variants)
         a = rng.choice(list(images[v]))
-        malformed = rng.choice(["cell-is-dict", "missing-path", "missing-arch", "variant-is-list", "image-is-string", "size-is-text", "cell-is-null"])
-        if malformed == "cell-is-dict":
+        kinds = ["cell-is-dict", "missing-path", "missing-arch", "variant-is-list", "image-is-string", "size-is-text", "cell-is-null",
+                 "cell-is-falsy", "variant-is-falsy"]
+        malformed = kinds[(n // 13) % len(kinds)]                  # round-robin over the classes
+        if malformed == "cell-is-falsy":
+            images[v][a] = rng.choice([{}, "", 0, False, 0.0])     # audit A8
+        elif malformed == "variant-is-falsy":
+            images[v] = rng.choice([None, "", 0, False, []])
+        elif malformed == "cell-is-dict":
             images[v][a] = {"x": 1}
         elif malformed.startswith("missing-"):
             if images[v][a]:
@@ -222,11 +272,13 @@ def gen_rpms03_doc(rng, tier, n):
     binaries, other key, other case); source packages missing from the src table / unreferenced src entries / null entries;
     sometimes a variant with only `src`, a `nosrc` / unknown arch key, an entry of type `source` among the binaries"""
     arches = mc.arches()
-    ver = ["0.3", "0.3", "0.2", "0.3", "0.1", "0.3", "0.0", "0.3"][n % 8]
+    # versions round-robin; "0.03" is (0, 3): the gate `<= (0, 3)` compares integers (audit C2)
+    ver = ["0.3", "0.3", "0.2", "0.3", "0.1", "0.3", "0.0", "0.3", "0.03"][n % 9]
     manifest, canon = {}, {}
-    variants = rng.sample(mc.VARIANTS, rng.randint(1, 3))
+    variants = odd_variants(rng, rng.sample(mc.VARIANTS, rng.randint(1, 3)))
     used = set()
     serial = [0]
+    L = len(arches)
 
     def fresh_source():
         s = R.gen_source(rng)
@@ -234,11 +286,12 @@ def gen_rpms03_doc(rng, tier, n):
         s["name"] = "%s%d" % (s["name"], serial[0])              # distinct canonical keys: no two entries write one slot
         return s
 
-    for v in variants:
+    for vi, v in enumerate(variants):
         pool = [a for a in arches if a not in used] or arches
-        my = rng.sample(pool, rng.randint(1, 3))
-        if rng.random() < 0.4:
-            my[0] = rng.choice(["x86_64", "i386", "ppc64le", "aarch64", "s390x"])
+        my = rng.sample(pool, rng.choice([1, 2, 2, 3, 3]))
+        my[0] = arches[(3 * n + vi) % L]                            # audit A7: every table entry as a tree arch key in turn
+        if rng.random() < 0.3:
+            my[-1] = rng.choice(["x86_64", "i386", "ppc64le", "aarch64", "s390x"])
         my = list(dict.fromkeys(my))
         used.add(my[-1])
         sources = [fresh_source() for _ in range(rng.randint(1, 3))]
@@ -257,11 +310,16 @@ def gen_rpms03_doc(rng, tier, n):
                 for j in range(rng.choice([1, 1, 2, 3])):
                     debug = rng.random() < 0.3
                     name = s["name"] + rng.choice(["", "-libs", "-devel", "-doc"]) + ("-debuginfo" if debug else "") + ("-%d" % j if j else "")
-                    parch = rng.choice([a, a, "noarch"])
+                    # audit A9: the RPM's own arch is not tied to the tree arch (i686 under x86_64, any other table entry, noarch)
+                    parch = rng.choice([a, a, "noarch", arches[(n + j) % L]])
                     txt, can = nevra_texts(rng, name, s["et"], s["ev"], s["version"], s["release"], parch)
                     canon[txt] = can
-                    rpms[txt] = {"type": "debug" if debug else "package", "path": "%s/%s/os/Packages/%s.rpm" % (v, a, can.replace(":", "_")),
-                                 "sigkey": key if rng.random() < 0.85 else rng.choice([None, "ABCDEF01", "abcdef01"])}
+                    # "binary" is what "package" is renamed to: an entry that already says so is legal (audit A7)
+                    rpms[txt] = {"type": "debug" if debug else rng.choice(["package", "package", "package", "binary"]),
+                                 "path": rng.choice(["%s/%s/os/Packages/%s.rpm", "%s/%s/os//Packages/./%s.rpm", "%s/../%s/%s.rpm"]) % (v or "V", a, can.replace(":", "_")),
+                                 "sigkey": key if rng.random() < 0.85 else rng.choice([None, "ABCDEF01", "abcdef01", ""])}
+                if rng.random() < 0.06:
+                    rpms = {}                                     # audit A10: a source package listed with NO package: nothing to file
                 cell[ktext[i][0]] = rpms
             manifest[v][a] = cell
         if rng.random() < 0.7:
@@ -274,8 +332,13 @@ def gen_rpms03_doc(rng, tier, n):
                     tbl[ktext[i][0]] = None                       # `srpm_data is not None`
                     continue
                 # the SRPM's key: mostly DIFFERENT from its binaries' (unsigned, another key, another case)
-                tbl[ktext[i][0]] = {"path": "%s/source/SRPMS/%s.rpm" % (v, ktext[i][1].replace(":", "_")),
-                                    "sigkey": rng.choice([None, None, "0A1B2C3D", "deadbeef", "FD431D51", "fd431d51"])}
+                tbl[ktext[i][0]] = {"path": rng.choice(["%s/source/SRPMS/%s.rpm", "%s/source//SRPMS/./%s.rpm", "../%s/%s.rpm"]) % (v or "V", ktext[i][1].replace(":", "_")),
+                                    "sigkey": rng.choice([None, None, "0A1B2C3D", "deadbeef", "FD431D51", "fd431d51", ""])}
+                if rng.random() < 0.05 and not ktext[i][0].endswith(".rpm"):
+                    # audit A9/A10: the src table spells the key differently from the arch tables (".rpm" appended): the reader looks
+                    # the entry up by the exact text, so this package has NO src entry as far as the document goes
+                    tbl[ktext[i][0] + ".rpm"] = tbl.pop(ktext[i][0])
+                    canon[ktext[i][0] + ".rpm"] = ktext[i][1]
             if rng.random() < 0.25:
                 s = fresh_source()
                 txt, can = nevra_texts(rng, s["name"], s["et"], s["ev"], s["version"], s["release"], "src")
@@ -291,26 +354,59 @@ def gen_rpms03_doc(rng, tier, n):
     elif r < 0.16:
         v = rng.choice(variants)
         donor = next(iter(a for a in manifest[v] if a != "src"))
-        bad = rng.choice(["nosrc", "nosrc"] + NEAR_MISS[:12])
+        bad = rng.choice(["nosrc", "nosrc", "nosrc"] + NEAR_MISS)
         manifest[v][bad] = copy.deepcopy(manifest[v][donor]) if rng.random() < 0.85 else {}
         inject = "bad-arch"
     elif r < 0.20:
         v = rng.choice(variants)
         a = next(iter(a for a in manifest[v] if a != "src"))
-        for kk in manifest[v][a]:
+        for kk in [kk for kk in manifest[v][a] if manifest[v][a][kk]]:
             first = next(iter(manifest[v][a][kk]))
-            manifest[v][a][kk][first]["type"] = "source"          # a source entry with srpm_nevra: refused by add
+            # a source entry with srpm_nevra, or a type outside the table: refused by add
+            manifest[v][a][kk][first]["type"] = rng.choice(["source", "source", "Package", "packages", "", "src"])
             inject = "source-type"
             break
+    elif r < 0.23:
+        manifest["Empty"] = {}                                     # audit A10: a variant with no arch at all
+        inject = "empty-variant"
+    elif r < 0.25:
+        manifest = {}
+        variants = []
+        inject = "empty-manifest"
+    elif r < 0.30:
+        # audit A4: two variants whose names differ only in case, different arches, each with its own src table
+        v = rng.choice(variants)
+        twin = v.upper() if v.upper() != v else v.lower()
+        if twin not in manifest and twin != v:
+            s2 = fresh_source()
+            other = arches[(3 * n + 11) % L]
+            ktxt = "%s-%d:%s-%s.src" % (s2["name"], s2["ev"], s2["version"], s2["release"])
+            btxt = "%s-%d:%s-%s.%s" % (s2["name"], s2["ev"], s2["version"], s2["release"], other)
+            canon[ktxt] = ktxt; canon[btxt] = btxt
+            manifest[twin] = {other: {ktxt: {btxt: {"type": "package", "path": "t/%s.rpm" % other, "sigkey": "AB"}}},
+                              "src": {ktxt: {"path": "t/src.rpm", "sigkey": None}}}
+            inject = "case-twin"
     malformed = None
-    cand = [(v, a) for v in variants for a in manifest[v] if a != "src" and manifest[v][a]]
-    if inject is None and cand and rng.random() < 0.07:
+    cand = [(v, a) for v in variants for a in manifest.get(v, {}) if a != "src" and manifest[v][a] and next(iter(manifest[v][a].values()))]
+    if inject is None and cand and n % 11 in (4, 9):
         # malformed stream (correspondence only): one structural corruption, the error branches of the reader
         v, a = rng.choice(cand)
         kk = next(iter(manifest[v][a]))
         nn = next(iter(manifest[v][a][kk]))
-        malformed = rng.choice(["missing-type", "missing-path", "missing-sigkey", "src-missing-path", "src-missing-sigkey", "cell-is-list", "rpms-is-list",
-                                "src-table-is-list", "path-is-null", "path-is-number", "variant-is-list", "src-path-absolute", "nevra-without-epoch"])
+        kinds = ["missing-type", "missing-path", "missing-sigkey", "src-missing-path", "src-missing-sigkey", "cell-is-list", "rpms-is-list",
+                 "src-table-is-list", "path-is-null", "path-is-number", "variant-is-list", "src-path-absolute", "nevra-without-epoch",
+                 "type-is-falsy", "src-entry-falsy", "src-path-falsy", "empty-srpm-key", "newer-version"]
+        malformed = kinds[(2 * (n // 11) + (n % 11 == 9)) % len(kinds)]      # round-robin over the classes
+        if malformed == "type-is-falsy":
+            manifest[v][a][kk][nn]["type"] = rng.choice([None, 0, False, [], {}])           # audit A8
+        elif malformed == "src-entry-falsy":
+            manifest[v]["src"] = {kk: rng.choice([{}, [], 0, False, ""])}
+        elif malformed == "src-path-falsy":
+            manifest[v]["src"] = {kk: {"path": rng.choice([None, "", 0, [], False]), "sigkey": None}}
+        elif malformed == "empty-srpm-key":
+            manifest[v][a][""] = manifest[v][a].pop(kk)            # `if srpm_nevra:` is false: filed under the package's own key
+        elif malformed == "newer-version":
+            ver = rng.choice(["0.4", "0.10", "1.0"])               # not behind the gate: `payload.rpms` is looked up and missing
         if malformed.startswith("missing-"):
             manifest[v][a][kk][nn].pop(malformed[8:], None)
         elif malformed.startswith("src-missing-"):
@@ -374,7 +470,7 @@ def rpms03_expectation(doc, canon, tbl):
             for k, rpms in cell.items():
                 sd = src_tbl.get(k)
                 for nv, d in rpms.items():
-                    if not is_binary(a, tbl) or d["type"] == "source":
+                    if not is_binary(a, tbl) or d["type"] not in ("package", "binary", "debug"):
                         must_fail = True
                     cat = "binary" if d["type"] == "package" else d["type"]
                     K = canon[k]
@@ -386,6 +482,84 @@ def rpms03_expectation(doc, canon, tbl):
                 if rpms and sd is not None:
                     claims.append([v, a, canon[k], {"category": "source", "path": sd["path"], "sigkey": lower(sd["sigkey"])}])
     return must_fail, out, claims, outside
+
+
+def reorder(x):
+    """the same document with every object's keys in REVERSE sorted order (audit A10: insertion order different from sorted order)"""
+    if isinstance(x, dict):
+        return dict((k, reorder(x[k])) for k in sorted(x, reverse=True))
+    if isinstance(x, list):
+        return [reorder(v) for v in x]
+    return x
+
+
+def path_cells(m):
+    """{variant: {arch: sorted image paths}} of a real Images object (empty tables included)"""
+    return dict((v, dict((a, sorted(o.path for o in cell)) for a, cell in d.items())) for v, d in m.images.items())
+
+
+def gen_img_seq(rng, tier, n, tbl):
+    """audit B: ONE Images object through adds (accepted / refused), dumps, __getitem__, loads of old documents (into the empty and into
+    the non-empty object, twice), crossing the version gates (0.0 -> dumps -> add; load 1.0 -> add)"""
+    t = F.tables()
+    pool = [simple_image(rng, j + 1, rng.choice(["x86_64", "src", "noarch"])) for j in range(4)]
+    for j, img in enumerate(pool):
+        img["path"] = "pool/%d.iso" % j
+    variants = rng.sample(F.VARIANTS, 2) + [rng.choice(ODD_VARIANTS)]
+    good = rng.sample(t["arches"], 2) + ["x86_64"]
+    steps = []
+    docs = 0
+    for i in range(rng.randint(3, 9)):
+        r = rng.random()
+        if r < 0.45:
+            rr = rng.random()
+            arch = rng.choice(good) if rr < 0.55 else rng.choice(SOURCE_NAMES) if rr < 0.8 else rng.choice(NEAR_MISS)
+            steps.append(["add", rng.choice(variants), arch, rng.randrange(len(pool))])
+        elif r < 0.6:
+            steps.append(["dumps"])
+        elif r < 0.75:
+            steps.append(["getitem", rng.choice(variants + ["Missing", "src"])])
+        elif docs < 2:
+            for _ in range(20):
+                doc = gen_images_doc(rng, tier, 10 * n + docs + 3 * _)
+                must_fail, groups, outside = images_expectation(doc, tbl) if not doc["header"].get("x-malformed") else (True, [], set())
+                recs = [g["rec"] for g in groups]
+                if not must_fail and not outside and not F.uniq_violations(recs) and len(set(g["rec"]["path"] for g in groups)) == len(groups) \
+                        and F.version_pair(doc["header"]["version"]) <= (1, 1):
+                    # keep the documents of one sequence apart (paths and identities)
+                    tag = "d%d/" % docs
+                    for d in doc["payload"]["images"].values():
+                        for c in d.values():
+                            for rec in c:
+                                rec["path"] = tag + rec["path"]; rec["disc_number"] += 100000 * (docs + 1)
+                    steps.append(["loads", doc]); docs += 1
+                    break
+    return {"version": rng.choice(["0.0", "1.0", "1.1", "1.2"]), "pool": pool, "steps": steps, "compose": F.gen_compose(rng, t)}
+
+
+def gen_rpm_seq(rng, tier, n, tbl):
+    """audit B: ONE Rpms object through adds, dumps, __getitem__ and loads of 0.3 documents (which REPLACE the mapping)"""
+    ops = R.gen_ops(rng, "quick", valid_only=True)
+    steps = []
+    for k, op in enumerate(ops[:8]):
+        r = rng.random()
+        if r < 0.2:
+            op["arch"] = rng.choice(SOURCE_NAMES)
+        elif r < 0.3:
+            op["arch"] = rng.choice(NEAR_MISS)
+        steps.append(["add", dict((kk, vv) for kk, vv in op.items() if kk != "why")])
+        r = rng.random()
+        if r < 0.2:
+            steps.append(["dumps"])
+        elif r < 0.4:
+            steps.append(["getitem", rng.choice([op["variant"], "Missing", "src"])])
+        elif r < 0.5:
+            for _ in range(20):
+                g = gen_rpms03_doc(rng, tier, 10 * n + k + 3 * _)
+                if g["inject"] in (None, "empty-variant", "case-twin") and not rpms03_expectation(g["doc"], g["canon"], tbl)[0]:
+                    steps.append(["loads", g["doc"], g["canon"]])
+                    break
+    return {"steps": steps, "compose": mc.gen_compose(rng)}
 
 
 # ------------------------------------------------------------------------------------------------ the property
@@ -445,17 +619,19 @@ class C10(Prop):
             except ValueError:
                 continue
             yield {"op": "img_load", "sweep": True, "args": {"doc": doc, "fixture": os.path.basename(path)}}
-        n_ih, n_rh, n_il = int(budget * 0.25), int(budget * 0.25), int(budget * 0.28)
-        n_rl = budget - n_ih - n_rh - n_il
+        n_ih, n_rh, n_il = int(budget * 0.21), int(budget * 0.21), int(budget * 0.26)
+        n_is, n_rs = int(budget * 0.06), int(budget * 0.06)
+        n_rl = budget - n_ih - n_rh - n_il - n_is - n_rs
         t = F.tables()
         for n in range(n_ih):
             pool = [simple_image(rng, j + 1, rng.choice(["x86_64", "src", "noarch"])) for j in range(rng.randint(1, 4))]
-            variants = rng.sample(F.VARIANTS, 2)
+            variants = rng.sample(F.VARIANTS, 2) + [ODD_VARIANTS[n % len(ODD_VARIANTS)]]
             good = rng.sample(t["arches"], 2) + ["x86_64"]
             ops = []
             for _ in range(rng.randint(1, 10)):
                 r = rng.random()
-                arch = rng.choice(good) if r < 0.55 else rng.choice(SOURCE_NAMES) if r < 0.75 else rng.choice(NEAR_MISS) if r < 0.9 else names[rng.randrange(len(names))]
+                arch = rng.choice(good) if r < 0.55 else rng.choice(SOURCE_NAMES) if r < 0.75 else rng.choice(NEAR_MISS) if r < 0.87 \
+                    else names[rng.randrange(len(names))] if r < 0.95 else rng.choice(NON_STRING_ARCHES)
                 ops.append([rng.choice(variants + ["Fresh%d" % len(ops)]), arch, rng.randrange(len(pool))])
             yield {"op": "img_history", "args": {"version": IMG_VERSIONS[n % len(IMG_VERSIONS)], "pool": pool, "ops": ops}}
         for n in range(n_rh):
@@ -468,9 +644,17 @@ class C10(Prop):
                     op["arch"] = rng.choice(NEAR_MISS)
                 elif r < 0.4:
                     op["arch"] = names[rng.randrange(len(names))]
-                if r < 0.4 and rng.random() < 0.5:
+                elif r < 0.43:
+                    op["arch"] = rng.choice(NON_STRING_ARCHES)
+                if r < 0.43 and rng.random() < 0.5:
                     op["variant"] = "Fresh%d" % k                # a refused call for a variant that has nothing else
+                elif rng.random() < 0.08:
+                    op["variant"] = ODD_VARIANTS[(n + k) % len(ODD_VARIANTS)]
             yield {"op": "rpm_history", "args": {"ops": strip(ops)}}
+        for n in range(n_is):
+            yield {"op": "img_seq", "args": gen_img_seq(rng, tier, n, tbl)}
+        for n in range(n_rs):
+            yield {"op": "rpm_seq", "args": gen_rpm_seq(rng, tier, n, tbl)}
         for n in range(n_il):
             yield {"op": "img_load", "args": {"doc": gen_images_doc(rng, tier, n)}}
         for n in range(n_rl):
@@ -484,19 +668,82 @@ class C10(Prop):
             m = im.Images()
             m.header.version = a["version"]
             objs = [F.new_image(im, m, attrs) for attrs in a["pool"]]
+            # audit B1: a SECOND manifest object is built interleaved, one call ahead, in the same process (state kept outside the
+            # object - a class attribute, a mutable default - would leak into the object under test)
+            shadow = im.Images()
+            shadow.header.version = a["version"]
+            sobjs = [F.new_image(im, shadow, attrs) for attrs in a["pool"]]
             idx_of = dict((id(o), i) for i, o in enumerate(objs))
             steps = []
             for v, arch, idx in a["ops"]:
                 try:
+                    shadow.add(v, arch, sobjs[idx])
+                except Exception:  # noqa
+                    pass
+                try:
                     m.add(v, arch, objs[idx]); res = "ok"
                 except Exception as e:  # noqa
                     res = checklib.err_class(e)
-                cells = dict((vv, dict((aa, sorted(idx_of.get(id(o), -1) for o in cell)) for aa, cell in d.items())) for vv, d in m.images.items())
+                cells = dict((str(vv), dict((aa if isinstance(aa, str) else repr(aa), sorted(idx_of.get(id(o), -1) for o in cell)) for aa, cell in d.items()))
+                             for vv, d in m.images.items())
                 steps.append({"res": res, "cells": cells})
             return {"steps": steps}
         if case["op"] == "rpm_history":
             obj = R.new()
-            return {"steps": mc.run_trace(obj, R.mapping, R.add, a["ops"])}
+            shadow = R.new()
+            steps = []
+            for op in a["ops"]:
+                try:
+                    R.add(shadow, op)
+                except Exception:  # noqa
+                    pass
+                steps.extend(mc.run_trace(obj, R.mapping, R.add, [op]))
+            return {"steps": steps}
+        if case["op"] == "img_seq":
+            im = F.lib()
+            m = im.Images()
+            m.header.version = a["version"]
+            for f, val in a["compose"].items():
+                setattr(m.compose, f, copy.deepcopy(val))
+            objs = [F.new_image(im, m, attrs) for attrs in a["pool"]]
+            steps = []
+            for st in a["steps"]:
+                extra = {}
+                try:
+                    if st[0] == "add":
+                        m.add(st[1], st[2], objs[st[3]])
+                    elif st[0] == "dumps":
+                        extra["written"] = dict((v, dict((aa, sorted(r["path"] for r in c)) for aa, c in d.items()))
+                                                for v, d in json.loads(m.dumps())["payload"]["images"].items())
+                    elif st[0] == "getitem":
+                        m[st[1]]
+                    elif st[0] == "loads":
+                        m.loads(json.dumps(st[1], sort_keys=True))
+                    res = "ok"
+                except Exception as e:  # noqa
+                    res = checklib.err_class(e)
+                steps.append(dict(extra, res=res, cells=path_cells(m), version=m.header.version))
+            return {"steps": steps}
+        if case["op"] == "rpm_seq":
+            m = R.new()
+            mc.apply_compose(m, a["compose"])
+            steps = []
+            for st in a["steps"]:
+                extra = {}
+                try:
+                    if st[0] == "add":
+                        R.add(m, st[1])
+                    elif st[0] == "dumps":
+                        extra["written"] = json.loads(m.dumps())["payload"]["rpms"]
+                    elif st[0] == "getitem":
+                        m[st[1]]
+                    elif st[0] == "loads":
+                        m.loads(json.dumps(st[1], sort_keys=True))
+                    res = "ok"
+                except Exception as e:  # noqa
+                    res = checklib.err_class(e)
+                steps.append(dict(extra, res=res, state=mc.enc(m.rpms)))
+            return {"steps": steps}
         if case["op"] == "img_load":
             im = F.lib()
             # another manifest object first reads a document with the SAME variant names and a DIFFERENT binary arch set (src image next to
@@ -510,22 +757,47 @@ class C10(Prop):
                 im.Images().loads(json.dumps(prime, sort_keys=True))
             except Exception:  # noqa
                 pass
-            m = im.Images()
-            try:
-                m.loads(json.dumps(a["doc"], sort_keys=True))
-            except Exception as e:  # noqa
-                return checklib.err_class(e)
-            keys = dict((v, sorted(d)) for v, d in m.images.items())
-            groups = real_groups(m)
-            return {"ok": {"groups": groups, "keys": keys, "dump": checklib.guarded(m.dumps)}}
+            def load(text):
+                m = im.Images()
+                try:
+                    m.loads(text)
+                except Exception as e:  # noqa
+                    return checklib.err_class(e)
+                keys = dict((v, sorted(d)) for v, d in m.images.items())
+                return {"ok": {"groups": real_groups(m), "keys": keys, "dump": checklib.guarded(m.dumps)}}
+            out = load(json.dumps(a["doc"], sort_keys=True))
+            # audit A10: the same document with every object's keys in the opposite order must load to the same manifest
+            other = load(json.dumps(reorder(a["doc"])))
+            out = dict(out)
+            out["reordered_same"] = checklib.canon(other) == checklib.canon(out)
+            if not out["reordered_same"]:
+                out["reordered"] = other
+            return out
         if case["op"] == "rpm_load":
             pm = mc.lib()
-            m = pm.rpms.Rpms()
+            # audit B1: another Rpms object first converts a document with the same variant names (cf. img_load)
             try:
-                m.loads(json.dumps(a["doc"], sort_keys=True))
-            except Exception as e:  # noqa
-                return checklib.err_class(e)
-            return {"ok": {"payload": mc.enc(m.rpms), "version": m.header.version, "dump": checklib.guarded(m.dumps)}}
+                man = a["doc"]["payload"]["manifest"]
+                prime = {"header": a["doc"]["header"], "payload": {"compose": a["doc"]["payload"]["compose"], "manifest": dict(
+                    (v, {"noarch": {"p-0:1-1.src": {"p-0:1-1.noarch": {"type": "package", "path": "p.rpm", "sigkey": "AA"}}},
+                         "src": {"p-0:1-1.src": {"path": "p.src.rpm", "sigkey": "BB"}}}) for v in man)}}
+                pm.rpms.Rpms().loads(json.dumps(prime, sort_keys=True))
+            except Exception:  # noqa
+                pass
+
+            def load(text):
+                m = pm.rpms.Rpms()
+                try:
+                    m.loads(text)
+                except Exception as e:  # noqa
+                    return checklib.err_class(e)
+                return {"ok": {"payload": mc.enc(m.rpms), "version": m.header.version, "dump": checklib.guarded(m.dumps)}}
+            out = dict(load(json.dumps(a["doc"], sort_keys=True)))
+            other = load(json.dumps(reorder(a["doc"])))
+            out["reordered_same"] = checklib.canon(other) == checklib.canon(out)
+            if not out["reordered_same"]:
+                out["reordered"] = other
+            return out
 
     # ------------------------------------------------------------------ model side
     def model_requests(self, case):
@@ -539,6 +811,13 @@ class C10(Prop):
             return [{"op": "c10_images_load", "args": {"doc": F.enc(a["doc"])}}]
         if case["op"] == "rpm_load":
             return [{"op": "c10_rpms_load", "args": {"doc": a["doc"]}}]
+        return []                                  # img_seq / rpm_seq: real object against the spec (no model op for dumps / loads mid-history)
+
+    def compare(self, case, real_out, model_out):
+        r = dict((k, v) for k, v in real_out.items() if k not in ("reordered_same", "reordered")) if isinstance(real_out, dict) else real_out
+        if checklib.canon(r) != checklib.canon(model_out):
+            return {"real": r, "model": model_out}
+        return None
 
     def model_result(self, case, outs):
         o = outs[0]
@@ -581,14 +860,98 @@ class C10(Prop):
                 prev = st["state"]
             return None
         if case["op"] == "img_load":
-            return self._oracle_img_load(a["doc"], real_out, tbl)
+            return self._oracle_img_load(a["doc"], real_out, tbl) or self._order(a["doc"]["header"].get("x-malformed"), real_out)
         if case["op"] == "rpm_load":
-            return self._oracle_rpm_load(a, real_out, tbl)
+            return self._oracle_rpm_load(a, real_out, tbl) or self._order(a.get("malformed") or a.get("collision"), real_out)
+        if case["op"] == "img_seq":
+            return self._oracle_img_seq(a, real_out, tbl)
+        if case["op"] == "rpm_seq":
+            return self._oracle_rpm_seq(a, real_out, tbl)
+
+    def _order(self, skip, real_out):
+        if skip or real_out.get("reordered_same", True):
+            return None
+        return {"kind": "order-dependent", "observed": {"sorted_keys": dict((k, v) for k, v in real_out.items() if k not in ("reordered", "reordered_same")),
+                                                       "reverse_sorted_keys": real_out.get("reordered")},
+                "required": "the loaded manifest does not depend on the order of the keys of the document's objects"}
+
+    def _oracle_img_seq(self, a, real_out, tbl):
+        spec = {}
+        for k, (st, out) in enumerate(zip(a["steps"], real_out["steps"])):
+            before = copy.deepcopy(spec)
+            want_res = "ok"
+            if st[0] == "add":
+                if is_binary(st[2], tbl):
+                    c = spec.setdefault(st[1], {}).setdefault(st[2], [])
+                    pth = a["pool"][st[3]]["path"]
+                    if pth not in c:
+                        c.append(pth); c.sort()
+                else:
+                    want_res = {"err": "ValueError"}
+            elif st[0] == "getitem":
+                if st[1] not in spec:
+                    want_res = {"err": "KeyError"}
+            elif st[0] == "loads":
+                _, groups, _ = images_expectation(st[1], tbl)
+                for g in groups:
+                    for v, b in g["at"]:
+                        c = spec.setdefault(v, {}).setdefault(b, [])
+                        c.append(g["rec"]["path"]); c.sort()
+            ctx = {"step": k, "call": st if st[0] != "loads" else ["loads", {"version": st[1]["header"]["version"], "keys": dict((v, sorted(d)) for v, d in st[1]["payload"]["images"].items())}],
+                   "result": out["res"], "cells_before": before, "cells_after": out["cells"], "header_version": out.get("version")}
+            if out["res"] != want_res:
+                return {"kind": "seq-outcome", "observed": ctx, "required": {"result": want_res}}
+            if out["cells"] != spec:
+                return {"kind": "seq-state" if st[0] in ("add", "loads") and want_res == "ok" else "call-left-a-trace", "observed": ctx,
+                        "required": {"cells_after": spec, "why": "accepted add / load files exactly what was put in; a refused add, dumps and __getitem__ change nothing"}}
+            bad = [va for va in arch_keys(out["cells"]) if not is_binary(va[1], tbl)]
+            if bad:
+                return {"kind": "source-arch-key", "observed": dict(ctx, bad_keys=bad), "required": "every arch key is in RPM_ARCHES minus {src, nosrc}"}
+            if st[0] == "dumps":
+                want = dict((v, dict((aa, c) for aa, c in d.items() if c)) for v, d in spec.items())
+                want = dict((v, d) for v, d in want.items() if d)
+                if out.get("written") != want:
+                    return {"kind": "seq-written", "observed": dict(ctx, written=out.get("written")), "required": {"written": want}}
+        return None
+
+    def _oracle_rpm_seq(self, a, real_out, tbl):
+        spec = {}
+        for k, (st, out) in enumerate(zip(a["steps"], real_out["steps"])):
+            before = copy.deepcopy(spec)
+            want_res = "ok"
+            if st[0] == "add":
+                op = st[1]
+                if is_binary(op["arch"], tbl):
+                    spec.setdefault(op["variant"], {}).setdefault(op["arch"], {}).setdefault(op["expect"]["srpm_key"], {})[op["expect"]["key"]] = R.record_of(op)
+                else:
+                    want_res = {"err": "ValueError"}
+            elif st[0] == "getitem":
+                if st[1] not in spec:
+                    want_res = {"err": "KeyError"}
+            elif st[0] == "loads":
+                spec = rpms03_expectation(st[1], st[2], tbl)[1]           # the 0.3 reader REPLACES the mapping
+            ctx = {"step": k, "call": st if st[0] != "loads" else ["loads", {"version": st[1]["header"]["version"], "keys": dict((v, sorted(d)) for v, d in st[1]["payload"]["manifest"].items())}],
+                   "result": out["res"], "mapping_before": before, "mapping_after": out["state"]}
+            if out["res"] != want_res:
+                return {"kind": "seq-outcome", "observed": ctx, "required": {"result": want_res}}
+            if out["state"] != spec:
+                return {"kind": "seq-state" if st[0] in ("add", "loads") and want_res == "ok" else "call-left-a-trace", "observed": ctx,
+                        "required": {"mapping_after": spec, "why": "accepted add / conversion files exactly what was put in; a refused add, dumps and __getitem__ change nothing"}}
+            bad = [va for va in arch_keys(out["state"]) if not is_binary(va[1], tbl)]
+            if bad:
+                return {"kind": "source-arch-key", "observed": dict(ctx, bad_keys=bad), "required": "every arch key is in RPM_ARCHES minus {src, nosrc}"}
+            if st[0] == "dumps" and out.get("written") != spec:
+                return {"kind": "seq-written", "observed": dict(ctx, written=out.get("written")), "required": {"written": spec}}
+        return None
 
     def _step(self, ctx, arch, res, before, after, tbl):
         if not is_binary(arch, tbl):
             if res != {"err": "ValueError"}:
                 return {"kind": "missing-refusal", "observed": ctx, "required": "ValueError: %r is not a binary architecture" % (arch,)}
+        elif res != "ok":
+            # audit C1, the other inclusion: ONLY src / nosrc / names outside the table are refused (every other argument of the
+            # generated calls is valid, the images of a pool never collide)
+            return {"kind": "spurious-refusal", "observed": ctx, "required": "accepted: %r is a binary architecture and the call is otherwise valid" % (arch,)}
         if res != "ok" and after != before:
             return {"kind": "refusal-left-a-trace", "observed": ctx,
                     "required": "a refused add leaves the manifest exactly as it was (no new variant key, no empty arch table)"}
@@ -703,13 +1066,16 @@ class C10(Prop):
 
     # ------------------------------------------------------------------ bookkeeping
     def nontrivial(self, case, real_out):
+        if case["op"] in ("img_seq", "rpm_seq"):
+            rs = set("ok" if s["res"] == "ok" else "err" for s in real_out["steps"])
+            return len(rs) == 2
         if case["op"] in ("img_history", "rpm_history"):
             rs = [("ok" if (s.get("res") == "ok" or "ok" in s.get("out", {})) else "err") for s in real_out["steps"]]
             return "ok" in rs and "err" in rs
         if case["op"] == "img_load":
-            return any("src" in d for d in case["args"]["doc"]["payload"]["images"].values())
+            return any(isinstance(d, dict) and "src" in d for d in case["args"]["doc"]["payload"]["images"].values())
         if case["op"] == "rpm_load":
-            return any("src" in d for d in case["args"]["doc"]["payload"]["manifest"].values())
+            return any(isinstance(d, dict) and "src" in d for d in case["args"]["doc"]["payload"]["manifest"].values())
         return True
 
     def stats(self, case, real_out, dist):
@@ -717,24 +1083,32 @@ class C10(Prop):
             dist[k] = dist.get(k, 0) + n
         op = case["op"]
         inc(op)
-        if op in ("img_history", "rpm_history"):
+        if op in ("img_seq", "rpm_seq"):
+            for st, s in zip(case["args"]["steps"], real_out["steps"]):
+                inc("%s.%s:%s" % (op, st[0], "ok" if s["res"] == "ok" else s["res"]["err"]))
+        elif op in ("img_history", "rpm_history"):
             for s in real_out["steps"]:
                 r = s.get("res") if op == "img_history" else ("ok" if "ok" in s["out"] else s["out"])
                 inc("%s.step:%s" % (op, "ok" if r == "ok" else r["err"]))
         elif op == "img_load":
             doc = case["args"]["doc"]
             inc("img_load.%s:%s" % (doc["header"]["version"], "ok" if "ok" in real_out else real_out["err"]))
-            inc("img_load.variants_with_src", sum(1 for d in doc["payload"]["images"].values() if "src" in d))
+            inc("img_load.variants_with_src", sum(1 for d in doc["payload"]["images"].values() if isinstance(d, dict) and "src" in d))
         elif op == "rpm_load":
             doc = case["args"]["doc"]
             inc("rpm_load.%s:%s" % (doc["header"]["version"], "ok" if "ok" in real_out else real_out["err"]))
             inc("rpm_load.inject:%s" % case["args"].get("inject"))
-            inc("rpm_load.variants_with_src", sum(1 for d in doc["payload"]["manifest"].values() if "src" in d))
+            inc("rpm_load.variants_with_src", sum(1 for d in doc["payload"]["manifest"].values() if isinstance(d, dict) and "src" in d))
 
     def shrink_candidates(self, case):
         a = case["args"]
         out = []
-        if case["op"] in ("img_history", "rpm_history"):
+        if case["op"] in ("img_seq", "rpm_seq"):
+            for i in range(len(a["steps"])):
+                c = copy.deepcopy(case); del c["args"]["steps"][i]
+                if c["args"]["steps"]:
+                    out.append(c)
+        elif case["op"] in ("img_history", "rpm_history"):
             for i in range(len(a["ops"])):
                 c = copy.deepcopy(case); del c["args"]["ops"][i]
                 if c["args"]["ops"]:
